@@ -2352,6 +2352,54 @@ pub fn run(run: &mut Run, seed: u64, thorough: bool, replay: Option<&str>, corpu
         }
         run.extra.push(("igs_loop_fed_extreme_arguments".into(), n.to_string()));
     }
+    // 5a'. the edges of `ParamsOk` (Props/C20IgsTotal.lean: every value within +-2^20; the property's own range with loop
+    // arithmetic reaches -99999..=199998): aimed at the arms whose totality proof needed an argument (DrawLine / LineDrawTo with
+    // the current position at the edge, Box with the border on, PolyLine, GrabScreen modes 0..3 with a saved block, VTColor
+    // over the whole register table, SetPenColor 15 / 16) and at the arms left conditional (RoundedRectangles with x2 left of
+    // x1 — found `30273 * x_radius` overflowing —, Circle, Ellipse, PolymarkerPlot, PolyFill) with the in-range extremes.
+    {
+        let lp = |l: char, args: &str| format!("&>0,1,1,0,{},{},{}:", l, args.split(',').count(), args);
+        let mut fam: Vec<String> = Vec::new();
+        // the repaired site and its neighbours (threshold: x2 - x1 <= -141874)
+        for (a, b) in [("+99999", "-99999"), ("+99999", "-50"), ("+70937", "-70937"), ("+70936", "-70937"), ("-99999", "+99999")] {
+            fam.push(format!("G#{}", lp('U', &format!("{},0,{},0,0", a, b))));
+            fam.push(format!("G#{}", lp('U', &format!("0,{},0,{},1", a, b))));
+        }
+        // current position at both edges, then LineDrawTo / DrawLine back; Box with border; PolyLine
+        fam.push(format!("G#{}{}", lp('L', "-99999,-99999,+99999,+99999"), lp('D', "-99999,+99999")));
+        fam.push(format!("G#A>1,1,1:{}", lp('B', "-99999,+99999,+99999,-99999,0")));
+        fam.push(format!("G#{}", lp('z', "2,-99999,-99999,+99999,+99999")));
+        // GrabScreen: save a block with negative extent / beyond the screen, paste it at the edges (modes 1, 2, 3, 0)
+        fam.push(format!("G#{}{}{}", lp('G', "1,3,+99999,+99999,-99999,-99999"), lp('G', "2,3,-99999,+99999"), lp('G', "3,3,-99999,-99999,+99999,+99999,-50,-50")));
+        fam.push(format!("G#{}{}{}", lp('G', "1,3,-50,-50,+99999,+99999"), lp('G', "2,3,-50,-50"), lp('G', "0,3,-99999,-99999,+99999,+99999,-50,-50")));
+        // VTColor over every register (table of 16) and beyond, SetPenColor at the pen guard
+        fam.push("G#c>0,0:c>1,15:c>1,16:c>0,99999:S>15,7,7,7:S>16,7,7,7:".to_string());
+        fam.push(format!("G#{}{}", lp('c', "0,-1"), lp('S', "-1,7,7,7")));
+        // the arms left conditional, in-range extremes
+        fam.push(format!("G#A>1,1,1:{}", lp('O', "-99999,+99999,+99999")));
+        fam.push(format!("G#A>1,1,1:{}", lp('O', "0,0,-99999")));
+        fam.push(format!("G#A>1,1,1:{}", lp('Q', "+99999,-99999,+99999,1")));
+        fam.push(format!("G#A>1,1,1:{}", lp('Q', "0,0,-50,+99999")));
+        for t in 1..=6 {
+            fam.push(format!("G#T>1,{},1:{}", t, lp('P', "-99999,+99999")));
+        }
+        // LineMarkerTypes guard (1..=6 accepted) around the polymarker table, every type on and off the screen
+        fam.push("G#T>1,0,1:P>5,5:T>1,7,1:P>5,5:T>1,6,1:P>0,0:T>1,5,1:P>319,199:T>1,3,1:P>99999,99999:".to_string());
+        fam.push(format!("G#A>1,1,1:{}", lp('f', "3,-99999,-99999,+99999,+99999,-99999,+99999")));
+        fam.push(format!("G#A>1,1,1:{}", lp('f', "2,+99999,0,-99999,199")));
+        if thorough {
+            // the edge of the proved range itself (+-2^20; beyond the property's range, inside `ParamsOk`)
+            fam.push(format!("G#{}{}", lp('L', "-1048576,-1048576,+1048576,+1048576"), lp('D', "-1048576,+1048576")));
+            fam.push(format!("G#A>1,1,1:{}", lp('B', "-1048576,+1048576,+1048576,-1048576,0")));
+            fam.push(format!("G#{}{}", lp('G', "1,3,+1048576,+1048576,-1048576,-1048576"), lp('G', "2,3,-1048576,+1048576")));
+            fam.push(format!("G#{}", lp('G', "3,3,-1048576,-1048576,+1048576,+1048576,-1048576,-1048576")));
+            fam.push(format!("G#{}", lp('U', "+1048576,0,-1048576,0,0")));
+        }
+        run.extra.push(("igs_params_ok_edge_streams".into(), fam.len().to_string()));
+        for st in fam {
+            cases.push(format!("igsx:.{}", hex(st.as_bytes())));
+        }
+    }
     let n_igsx = if thorough { 8000 } else { 300 };
     for _ in 0..n_igsx {
         cases.push(format!("igsx:.{}", hex(&igsx_stream(&mut rng))));
